@@ -401,6 +401,7 @@ class Agg:
 DIGEST_SAMPLE = 8
 SAMPLE_INDICES = (0, 1, 2)
 CHUNK = 100
+MAX_FATAL = 12  # dead/hung runs after which a batch stops early (they are all reported as violations)
 
 
 def make_spec(mod, verif_seed, index):
@@ -479,6 +480,7 @@ def run_many(mod, verif_seed, n_runs, nworkers, scratch, wall_cap=None, start_in
     truncated = False
     live = {}  # pid -> (wid, indices)
     next_wid = [0]
+    fatal = [0]
 
     def spawn(idx):
         if not idx:
@@ -504,14 +506,14 @@ def run_many(mod, verif_seed, n_runs, nworkers, scratch, wall_cap=None, start_in
     for idx in per_worker:
         spawn(idx)
 
-    STALL = getattr(mod, "STALL_SECONDS", 120)
+    STALL = getattr(mod, "STALL_SECONDS", 60)
     while live:
         pid, status = os.waitpid(-1, os.WNOHANG)
         if pid == 0:
             _wall.sleep(0.05)
             now = _wall.monotonic()
             if wall_cap is not None and now - t0 > wall_cap:
-                truncated = True
+                truncated = "wall"
                 for p in list(live):
                     os.kill(p, signal.SIGKILL)
                     os.waitpid(p, 0)
@@ -548,8 +550,18 @@ def run_many(mod, verif_seed, n_runs, nworkers, scratch, wall_cap=None, start_in
             what = "process-hung" if sig == signal.SIGKILL else f"process-died:signal={sig}"
             total.violations.append((last_i, {"sig": what, "detail": {"signal": sig}, "step": None}))
             total.runs += 1
+            fatal[0] += 1
             # re-run the rest of that chunk and the following chunks without the fatal index
             remaining = [i for i in remaining if i != last_i]
+        if fatal[0] >= MAX_FATAL:
+            # enough dead or hung runs to report; do not spend hours re-spawning workers
+            truncated = "fatal-violations"
+            for p in list(live):
+                os.kill(p, signal.SIGKILL)
+                os.waitpid(p, 0)
+                wid2, _, _, _ = live.pop(p)
+                _collect(scratch, wid2, total)
+            break
         spawn(remaining)
     return total, truncated
 
